@@ -397,17 +397,23 @@ func c13cChoose(r *rand.Rand, tab []c13cPick) string {
 	return tab[0].op
 }
 
-// c13cBarrier releases all workers at (nearly) the same instant: spin, yielding, with a
-// bounded number of rounds (a worker that gives up just starts late).
+// c13cBarrier releases all workers at (nearly) the same instant: each spins (yielding
+// now and then) until all have arrived. The 2 s bound is a watchdog only: a worker that
+// gives up just starts late (counted; the overlap floor decides conclusiveness).
 type c13cBarrier struct {
-	n, arrived int32
+	n, arrived, gaveUp int32
 }
 
 func (b *c13cBarrier) arrive() {
 	atomic.AddInt32(&b.arrived, 1)
-	for i := 0; i < 2_000_000 && atomic.LoadInt32(&b.arrived) < b.n; i++ {
-		if i%64 == 63 {
+	t0 := time.Now()
+	for i := 1; atomic.LoadInt32(&b.arrived) < b.n; i++ {
+		if i%256 == 0 {
 			runtime.Gosched()
+		}
+		if i%4096 == 0 && time.Since(t0) > 2*time.Second {
+			atomic.AddInt32(&b.gaveUp, 1)
+			return
 		}
 	}
 }
@@ -592,6 +598,7 @@ func c13RunConcHistory(run *vk.Run, hidx int, r *rand.Rand, keys []c13cKeySpec, 
 	}
 	done.Wait()
 	run.Count("workload_ms_total", time.Since(base).Milliseconds())
+	run.Count("start_barrier_gave_up", int64(atomic.LoadInt32(&start.gaveUp)))
 	for _, ks := range keys {
 		var recs []c13cRec
 		for g := range all {
@@ -708,7 +715,9 @@ func TestVerifC13Concurrent(t *testing.T) {
 		{{"ka", 'r', "setnx"}, {"kb", 'r', "cas"}},
 	}
 	agg := &c13cHistStats{pairs: map[string]struct{}{}, counts: map[string]int64{}, illegal: map[string]bool{}}
-	for h := 0; h < nh; h++ {
+	// nh histories; if the machine serialised the goroutines (little real overlap), up to
+	// 3*nh more, still a bounded case count, until the overlap floor is met
+	for h := 0; h < nh || (h < 4*nh && agg.overlapping < int64(nh)*50); h++ {
 		keys := combos[h%len(combos)]
 		run.Case(fmt.Sprintf("conc|%s+%s", keys[0].Profile, keys[1].Profile), map[string]any{"history": h})
 		c13RunConcHistory(run, h, rand.New(rand.NewSource(r.Int63())), keys, agg)
@@ -736,7 +745,7 @@ func TestVerifC13ConcurrentHash(t *testing.T) {
 	r := run.Rand("conc-hash")
 	keys := []c13cKeySpec{{"ha", 'h', "hash"}, {"hb", 'h', "hash"}}
 	agg := &c13cHistStats{pairs: map[string]struct{}{}, counts: map[string]int64{}, illegal: map[string]bool{}}
-	for h := 0; h < nh; h++ {
+	for h := 0; h < nh || (h < 4*nh && agg.overlapping < int64(nh)*50); h++ {
 		run.Case("conc|hash+hash", map[string]any{"history": h})
 		c13RunConcHistory(run, h, rand.New(rand.NewSource(r.Int63())), keys, agg)
 		run.Eval(1)
